@@ -284,6 +284,10 @@ def fam_scoping():
         ("scope:fn-local-vs-global", "stel a = %s; functie f() { stel a = %s; a = a + 1; a }; [f(), a]" % (H0, H1)),
         ("scope:fn-sees-global", "stel a = %s; functie f() { a + 1 }; a = %s; f()" % (H0, H1)),
         ("scope:fn-param-shadows-global", "stel a = %s; functie f(a) { a + 1 }; [f(%s), a]" % (H0, H1)),
+        ("scope:second-param-shadows-global", "stel n = %s; functie macht(g, n) { n + g }; [macht(1, %s), n]" % (H0, H1)),
+        ("scope:third-param-shadows-global", "stel n = %s; stel m = 7; functie f(a, m, n) { stel r = n * 2; r + m + a }; [f(1, 2, %s), n, m]" % (H0, H1)),
+        ("scope:param-shadows-top-level-function", "functie hulp() { 1 }; functie f(a, hulp) { hulp + a }; [f(1, %s), hulp()]" % H0),
+        ("scope:param-named-like-own-function", "functie f(a, f) { f + a }; f(1, %s)" % H0),
         ("scope:fn-block-scopes", "functie f(n) { stel r = n; { stel n = r + 1; { stel r = n + 1; n = r; }; r = n; }; [r, n] }; f(%s)" % H0),
         ("scope:fn-in-block", "stel r = 0; { functie f(x) { x + %s }; r = f(1); }; r" % H0),
         ("scope:fn-in-block-reads-block-var", "stel t = %s; stel r = 0; { stel t = %s; stel f = functie() { t + 1 }; r = f(); }; [t, r]" % (H0, H1)),
@@ -464,6 +468,35 @@ def fam_boundary():
         ("bnd:nonascii-index", '"é"[%s]' % H0),
         ("bnd:nonascii-index2", 'stel s = "🇳🇱"; [s[%s], lengte(s)]' % H0),
         ("bnd:int-of-big-float", "int(1000000000000000000000.0)"),
+        # an identity element written as a literal next to a LOCAL variable is still an operation: the operand types are checked
+        ("bnd:identity-literal:add:local-lit:float", 'functie f(x) { print("in"); x + 0 }; f(1.5)'),
+        ("bnd:identity-literal:add:lit-local:float", 'functie f(x) { print("in"); 0 + x }; f(1.5)'),
+        ("bnd:identity-literal:add:local-lit:text", 'functie f(x) { print("in"); x + 0 }; f("abc")'),
+        ("bnd:identity-literal:add:lit-local:text", 'functie f(x) { print("in"); 0 + x }; f("abc")'),
+        ("bnd:identity-literal:add:local-lit:bool", 'functie f(x) { print("in"); x + 0 }; f(ja)'),
+        ("bnd:identity-literal:add:lit-local:bool", 'functie f(x) { print("in"); 0 + x }; f(ja)'),
+        ("bnd:identity-literal:add:local-lit:list", 'functie f(x) { print("in"); x + 0 }; f([1])'),
+        ("bnd:identity-literal:add:lit-local:list", 'functie f(x) { print("in"); 0 + x }; f([1])'),
+        ("bnd:identity-literal:add:op-assign", 'functie f(x) { x += 0; x }; [f(%s), f(2.5)]' % H0),
+        ("bnd:identity-literal:sub:local-lit:float", 'functie f(x) { print("in"); x - 0 }; f(1.5)'),
+        ("bnd:identity-literal:sub:local-lit:text", 'functie f(x) { print("in"); x - 0 }; f("abc")'),
+        ("bnd:identity-literal:sub:local-lit:bool", 'functie f(x) { print("in"); x - 0 }; f(ja)'),
+        ("bnd:identity-literal:sub:local-lit:list", 'functie f(x) { print("in"); x - 0 }; f([1])'),
+        ("bnd:identity-literal:sub:op-assign", 'functie f(x) { x -= 0; x }; [f(%s), f(2.5)]' % H0),
+        ("bnd:identity-literal:mul:local-lit:float", 'functie f(x) { print("in"); x * 1 }; f(1.5)'),
+        ("bnd:identity-literal:mul:lit-local:float", 'functie f(x) { print("in"); 1 * x }; f(1.5)'),
+        ("bnd:identity-literal:mul:local-lit:text", 'functie f(x) { print("in"); x * 1 }; f("abc")'),
+        ("bnd:identity-literal:mul:lit-local:text", 'functie f(x) { print("in"); 1 * x }; f("abc")'),
+        ("bnd:identity-literal:mul:local-lit:bool", 'functie f(x) { print("in"); x * 1 }; f(ja)'),
+        ("bnd:identity-literal:mul:lit-local:bool", 'functie f(x) { print("in"); 1 * x }; f(ja)'),
+        ("bnd:identity-literal:mul:local-lit:list", 'functie f(x) { print("in"); x * 1 }; f([1])'),
+        ("bnd:identity-literal:mul:lit-local:list", 'functie f(x) { print("in"); 1 * x }; f([1])'),
+        ("bnd:identity-literal:mul:op-assign", 'functie f(x) { x *= 1; x }; [f(%s), f(2.5)]' % H0),
+        ("bnd:identity-literal:div:local-lit:float", 'functie f(x) { print("in"); x / 1 }; f(1.5)'),
+        ("bnd:identity-literal:div:local-lit:text", 'functie f(x) { print("in"); x / 1 }; f("abc")'),
+        ("bnd:identity-literal:div:local-lit:bool", 'functie f(x) { print("in"); x / 1 }; f(ja)'),
+        ("bnd:identity-literal:div:local-lit:list", 'functie f(x) { print("in"); x / 1 }; f([1])'),
+        ("bnd:identity-literal:div:op-assign", 'functie f(x) { x /= 1; x }; [f(%s), f(2.5)]' % H0),
         ("bnd:int-of-big-text", 'int("9000000000000000000")'),
         # int(float) at the ends of the integer range: 2^60 - 1 is not a float (it rounds to 2^60, which is out of range); the
         # largest float below 2^60 is 2^60 - 128; -2^60 is MIN_INT itself; the next float below it is -2^60 - 256
@@ -877,6 +910,10 @@ DIRECTED_SESSIONS = [
     ("compile-error-in-loop-condition-then-stop", ["stel a = 0", "zolang nope < 3 { a += 1 }", "stel q = 1; stop", "a", "q"]),
     ("compile-error-in-nested-loop-condition", ["stel a = 0", "zolang a < 1 { a = a; zolang nope { } }", "als a == 0 { volgende }; 5", "a"]),
     ("compile-error-in-fn-loop-condition", ["stel a = 0", "functie g() { zolang nope { 1 } }", "stop", "functie h() { volgende }; 1", "a"]),
+    ("result-then-store-then-collect-twice", ["stel a = [0, 0]", "a", 'a[0] = "nieuwe waarde"; 0', "functie w() { 1 }; w(); w(); w(); 0", "a[0]", "functie w() { 1 }; w(); w(); a"]),
+    ("nested-result-then-store-then-collect-twice", ["stel a = [[0], 0]", "a", "stel in = a[0]; in[0] = 2.5 + 1.0; a[1] = [7.5]; 0", "functie w() { stel t = [9.5] }; w(); w(); stel z = [1.25 + 1.0]; w(); 0", "a"]),
+    ("compile-error-two-functions-deep-then-decl", ["stel a = %s" % H0, "functie buiten() { functie binnen() { onbekend }; binnen() }", "stel b = 5", "a + b", "functie f() { stel c = 1; c }; f() + b"]),
+    ("compile-error-three-functions-deep-then-decl", ["stel a = 1", "functie p() { functie q() { functie r() { onbekend }; r() }; q() }", "stel b = a + 1; b", "b"]),
     ("globals-many-lines", ["stel a = %s" % H0, "stel b = a + 1", "a = b * 2; a", "stel c = [a, b]", "c[%s]" % H2, "a + b"]),
     ("redeclare-across-lines", ["stel a = 1", "stel a = %s + 1" % H1, "a", "{ stel a = 5; a }", "a"]),
     ("redeclare-fails-at-run-time", ["stel a = 1", "stel a = [1][%s]" % H2, "a"]),
